@@ -693,6 +693,32 @@ def _native_roundtrip(tier="quick", seed=0):
     cpb = pkg.core_properties
     n = len([r for r in pkg._rels.values() if r.reltype == RT.CORE_PROPERTIES])
     rec("C18.native.default_part_once", cpa is cpb and n == 1, "core_properties created %d relationships / distinct parts on repeated access" % n, "default-part")
+    # the default part's `modified` is the current time in UTC (it is written with the "Z" designator) whatever the process's time zone
+    import os as _os
+    import time as _time
+
+    bad = None
+    old_tz = _os.environ.get("TZ")
+    try:
+        for tz_ in ("PST8", "IST-5:30", "UTC0"):
+            _os.environ["TZ"] = tz_
+            _time.tzset()
+            q_ = Presentation().part.package
+            for r_ in [r.rId for r in q_._rels.values() if r.reltype == RT.CORE_PROPERTIES]:
+                q_._rels.pop(r_)
+            before_ = dt.datetime.now(dt.timezone.utc).replace(tzinfo=None)
+            m_ = q_.core_properties.modified
+            after_ = dt.datetime.now(dt.timezone.utc).replace(tzinfo=None)
+            evals += 1
+            if m_ is None or not (before_ - dt.timedelta(seconds=2) <= m_ <= after_ + dt.timedelta(seconds=2)):
+                bad = bad or "process time zone %s: the default part's modified reads %r, the UTC time is %r" % (tz_, m_, after_)
+    finally:
+        if old_tz is None:
+            _os.environ.pop("TZ", None)
+        else:
+            _os.environ["TZ"] = old_tz
+        _time.tzset()
+    rec("C18.native.default_part_modified_is_utc_in_any_time_zone", bad is None, bad, "default-part")
     # two packages without a core-properties part in one process: each gains its own default part
     def _coreless():
         q = Presentation().part.package
